@@ -67,6 +67,8 @@ type Unit struct {
 	knownRefs  []Term
 	rootCaller map[string]Term
 	onceDepth  int
+	catDone    bool
+	catTerms   []Term
 	closedChans map[string]bool
 	initArrays map[string]Term
 	allocTypes map[int]types.Type
@@ -1586,7 +1588,7 @@ func propList(p string) []string {
 	if p == "" {
 		return nil
 	}
-	return []string{p}
+	return strings.Split(p, "+")
 }
 
 // ---------------------------------------------------------------- blocks
